@@ -37,11 +37,15 @@ def i16 (v : Nat) : Int := if v ≥ 32768 then (v : Int) - 65536 else (v : Int)
 /-! ## gradients: does the arm reach its `painter.fill(..)`? -/
 
 /-- `Extend` of a colour line (`Extend::new(raw)`: 0 Pad, 1 Repeat, 2 Reflect, anything else `Unknown`)
-and the raw `F2Dot14` stop offsets (`to_bits() as i16`; the value is `bits / 16384`, exact in `f32`) -/
+and the stops in table order: raw `F2Dot14` offset (`to_bits() as i16`; the value is `bits / 16384`, exact in
+`f32`), palette index, raw `F2Dot14` alpha -/
 structure CLine where
   ext : Nat
-  stops : List Int
+  stops : List (Int × Nat × Int)
   deriving Repr, DecidableEq
+
+/-- the stop offsets -/
+def CLine.offs (cl : CLine) : List Int := cl.stops.map (·.1)
 
 /-- `gradient.color_line()` (`Offset24` at `p+1` relative to the paint; `ColorLine::read` /
 `VarColorLine::read`: extend `u8`, `num_stops: u16`, `num_stops` records of 6 / 10 bytes) and
@@ -57,7 +61,7 @@ def colorLineAt (d : List Nat) (p : Nat) (var : Bool) : Option CLine :=
     | some n =>
       let sz := if var then 10 else 6
       if 3 + n * sz ≤ d.length - q then
-        some ⟨be d q 1, records (fun r => i16 (be d r 2)) (q + 3) n sz⟩
+        some ⟨be d q 1, records (fun r => (i16 (be d r 2), be d (r + 2) 2, i16 (be d (r + 4) 2))) (q + 3) n sz⟩
       else none
 
 /-- what a gradient arm does -/
@@ -104,7 +108,7 @@ def listMax : List Int → Option Int
 by offset puts a minimal offset first and a maximal one last), `color_stop_range = last - first`
 (exact: both are multiples of `2^-14` below `4`), the two `color_stop_range == 0.0` tests -/
 def radialCase (cl : CLine) : GCase :=
-  match listMin cl.stops, listMax cl.stops with
+  match listMin cl.offs, listMax cl.offs with
   | some lo, some hi =>
     if hi - lo = 0 then (if cl.ext = 0 then .zeroRangePad else .zeroRangeNotPad) else .gradient
   | _, _ => .noStops
@@ -135,7 +139,7 @@ def sweepCase (sa ea : Int) (cl : CLine) : GCase :=
   let startAngle := add f32 (mul f32 (f2dot14 sa) c180) c180
   let endAngle := add f32 (mul f32 (f2dot14 ea) c180) c180
   let sector := sub f32 endAngle startAngle
-  match listMin cl.stops, listMax cl.stops with
+  match listMin cl.offs, listMax cl.offs with
   | some lo, some hi =>
     let s := add f32 startAngle (mul f32 sector (f2dot14 lo))
     let e := add f32 startAngle (mul f32 sector (f2dot14 hi))
@@ -148,15 +152,38 @@ def sweepCase (sa ea : Int) (cl : CLine) : GCase :=
       else if hi - lo = 0 then .zeroRangePad else .gradient
   | _, _ => .noStops
 
+/-- the case of a gradient paint of format 4 … 9 at `p` given its colour line -/
+def caseOf (d : List Nat) (p fmt : Nat) (cl : CLine) : GCase :=
+  let c := fun k => i16 (be d (p + k) 2)
+  if fmt = 4 ∨ fmt = 5 then linearCase (c 4) (c 6) (c 8) (c 10) (c 12) (c 14) cl
+  else if fmt = 6 ∨ fmt = 7 then radialCase cl
+  else sweepCase (c 8) (c 10) cl
+
 /-- the gradient formats 4 … 9 at `p` (the paint's `MinByteRange` is in bounds) -/
 def gradientCase (d : List Nat) (p fmt : Nat) : Option GCase :=
-  match colorLineAt d p (fmt % 2 = 1) with
-  | none => none
-  | some cl =>
-    let c := fun k => i16 (be d (p + k) 2)
-    if fmt = 4 ∨ fmt = 5 then some (linearCase (c 4) (c 6) (c 8) (c 10) (c 12) (c 14) cl)
-    else if fmt = 6 ∨ fmt = 7 then some (radialCase cl)
-    else some (sweepCase (c 8) (c 10) cl)
+  (colorLineAt d p (fmt % 2 = 1)).map (caseOf d p fmt)
+
+/-- `resolved_stops.first()` after `make_sorted_resolved_stops` (a stable sort by offset): the earliest
+stop among those with the smallest offset -/
+def firstSorted : List (Int × Nat × Int) → Option (Int × Nat × Int)
+  | [] => none
+  | x :: xs => match firstSorted xs with
+    | none => some x
+    | some m => some (if x.1 ≤ m.1 then x else m)
+
+/-- `Extend as u8` -/
+def extOf (raw : Nat) : Nat := if raw ≤ 2 then raw else 3
+
+/-- the `Brush` a gradient arm passes to `painter.fill` (`none`: the arm returns without filling):
+`[0, palette, alpha]` for `Brush::Solid`, `[kind, extend, number of colour stops]` for the gradients
+(kind 1 linear, 2 radial, 3 sweep; the stop count includes the stop appended for a zero range in Pad mode) -/
+def gradientBrush (fmt : Nat) (cl : CLine) (g : GCase) : Option Brush :=
+  let kind : Int := if fmt = 4 ∨ fmt = 5 then 1 else if fmt = 6 ∨ fmt = 7 then 2 else 3
+  match g with
+  | .degenerateSolid => (firstSorted cl.stops).map (fun s => solidBrush s.2.1 s.2.2)
+  | .zeroRangePad => some [kind, (extOf cl.ext : Nat), (cl.stops.length + 1 : Nat)]
+  | .gradient => some [kind, (extOf cl.ext : Nat), (cl.stops.length : Nat)]
+  | _ => none
 
 /-! ## `resolve_paint` (instance.rs) from the bytes -/
 
@@ -177,17 +204,26 @@ def nodeOfBytes (d : List Nat) (p : Nat) : Option Node :=
   | .error _ => none
   | .ok fmt =>
     if fmt = 1 then some (.colrLayers (be d (p + 2) 4) (be d (p + 1) 1))
-    else if fmt = 2 ∨ fmt = 3 then some (.leaf true)
-    else if 4 ≤ fmt ∧ fmt ≤ 9 then (gradientCase d p fmt).map (fun g => .leaf g.fills)
+    else if fmt = 2 ∨ fmt = 3 then some (.leaf (some (solidBrush (be d (p + 1) 2) (i16 (be d (p + 3) 2)))))
+    else if 4 ≤ fmt ∧ fmt ≤ 9 then
+      (colorLineAt d p (fmt % 2 = 1)).map (fun cl => .leaf (gradientBrush fmt cl (caseOf d p fmt cl)))
     else if fmt = 10 then (childAt d p (p + 1)).map (fun q => .glyph (be d (p + 4) 2) q)
     else if fmt = 11 then some (.colrGlyph (be d (p + 1) 2))
     else if fmt = 12 ∨ fmt = 13 then
-      (if affineOk d p (fmt = 13) then (childAt d p (p + 1)).map .transform else none)
+      (if affineOk d p (fmt = 13) then (childAt d p (p + 1)).map (.transform p) else none)
     else if fmt = 32 then
       match childAt d p (p + 1), childAt d p (p + 5) with
       | some s, some b => some (.composite s (modeOf (be d (p + 4) 1)) b)
       | _, _ => none
-    else (childAt d p (p + 1)).map .transform
+    else (childAt d p (p + 1)).map (.transform p)
+
+/-- `get_clipbox_font_units(instance, gid)` at the default location: `v1_clip_box(gid).ok().flatten()`,
+then `resolve_clip_box`: the four `FWord`s (`to_i16() as f32`; for `ClipBoxFormat2` the deltas are `0.0`) -/
+def clipOfBytes (t : Colr) (g : Gid) : Option ClipBoxV :=
+  match v1ClipBox t g with
+  | .ok (some (_, q)) =>
+    some [i16 (be t.d (q + 1) 2), i16 (be t.d (q + 3) 2), i16 (be t.d (q + 5) 2), i16 (be t.d (q + 7) 2)]
+  | _ => none
 
 /-- the `ColrInstance` lookups of a parsed table, as the traversal model's `Instance`.  A `trap`
 (index panic) of a lookup is mapped to the error answer; Props/C01HandColr.lean shows it never occurs. -/
@@ -200,9 +236,7 @@ def instOfBytes (t : Colr) : Instance where
     | .ok (some (_, q)) => .found q
     | .ok none => .notFound
     | _ => .err
-  hasClip := fun g => match v1ClipBox t g with
-    | .ok (some _) => true
-    | _ => false
+  clip := clipOfBytes t
 
 /-- `font.color_glyphs().get_with_format(gid, ColrV1)` + `ColorGlyph::paint(default location, client)`
 on the bytes of the COLR table; `none` = no such colour glyph (`Colr::read` fails, no v1 base glyph) -/
@@ -211,10 +245,10 @@ def paintBytes (d : List Nat) (c : Client) (gid : Gid) : Option Res :=
   | none => none
   | some t => paintV1 (instOfBytes t) c gid
 
-/-- `Colr::v0_layer(i)` reduced to the layer glyph (`none` = `Err`) -/
-def v0LayerGid (t : Colr) (i : Nat) : Option Gid :=
+/-- `Colr::v0_layer(i)`: the layer glyph and its palette index (`none` = `Err`) -/
+def v0LayerGid (t : Colr) (i : Nat) : Option (Gid × Nat) :=
   match v0Layer t i with
-  | .ok l => some l.gid
+  | .ok l => some (l.gid, l.pal)
   | _ => none
 
 /-- `get_with_format(gid, ColrV0)` + `paint` -/
@@ -225,5 +259,21 @@ def paintV0Bytes (d : List Nat) (c : Client) (gid : Gid) : Option Res :=
     match v0BaseGlyph t gid with
     | .ok (some (s, e)) => some (paintV0 c (v0LayerGid t) s (e - s))
     | _ => none
+
+/-- `get_with_format(gid, fmt)` + `ColorGlyph::bounding_box(default location, Size::unscaled())`:
+`none` = no such colour glyph; `some none` = `None` (always for COLRv0; COLRv1 without clip box);
+`some (some box)`: the clip box (`linear_scale` of an unscaled size is `1.0`) -/
+def boundingBoxBytes (d : List Nat) (gid : Gid) (v0 : Bool) : Option (Option ClipBoxV) :=
+  match colrRead d with
+  | none => none
+  | some t =>
+    if v0 then
+      match v0BaseGlyph t gid with
+      | .ok (some _) => some none
+      | _ => none
+    else
+      match v1BaseGlyph t gid with
+      | .ok (some _) => some (clipOfBytes t gid)
+      | _ => none
 
 end FontVerif.PaintBytes
